@@ -1,5 +1,6 @@
 import OdakProofs.Lemmas.Kernels
 import OdakProofs.Lemmas.PropagateLemmas
+import OdakProofs.Lemmas.NumpyPipelines
 import OdakProofs.Props.C08
 
 /-! # C02 – propagation distances compose: 0 is the identity, −z undoes z, z1 then z2 = z1 + z2 -/
@@ -92,5 +93,35 @@ theorem C02_back_and_forth_product (n m : Nat) (dx lam z0 d : ℝ) :
   rw [(C02_kernel_add_zero n m dx lam 0 z0 (-(z0 - d))).1]; congr 1; ring
 
 example : ([1.5, -1.5, 0, 2] : List ℝ).sum = 2 := by norm_num
+
+/-- NumPy `transfer_function_fresnel` (shift-first pipeline, not an instance of `customNoAp`):
+    z1 then z2 is one propagation by z1 + z2, at every grid size (even, odd, non-square) -/
+theorem C02_np_tf_composes {n m : Nat} (u : CGrid ℝ n m) (dx lam k z1 z2 : ℝ) (hdx : 0 < dx) (hm : 0 < m) :
+    npTF (npTF u dx lam k z1) dx lam k z2 = npTF u dx lam k (z1 + z2) :=
+  npTF_comp u dx lam k z1 z2 (pos_ne m dx hdx hm)
+
+/-- … distance 0 is the identity … -/
+theorem C02_np_tf_zero_distance_identity {n m : Nat} (u : CGrid ℝ n m) (dx lam k : ℝ) (hdx : 0 < dx) (hm : 0 < m) :
+    npTF u dx lam k 0 = u :=
+  npTF_zero_dist u dx lam k (pos_ne m dx hdx hm)
+
+/-- … and −z undoes z -/
+theorem C02_np_tf_negative_distance_undoes {n m : Nat} (u : CGrid ℝ n m) (dx lam k z : ℝ) (hdx : 0 < dx) (hm : 0 < m) :
+    npTF (npTF u dx lam k z) dx lam k (-z) = u := by
+  rw [C02_np_tf_composes u dx lam k z (-z) hdx hm, add_neg_cancel]
+  exact C02_np_tf_zero_distance_identity u dx lam k hdx hm
+
+/-- every finite sequence of NumPy Fresnel steps equals one step by the sum -/
+theorem C02_np_tf_step_sequences_compose {n m : Nat} (u : CGrid ℝ n m) (dx lam k : ℝ) (zs : List ℝ)
+    (hdx : 0 < dx) (hm : 0 < m) :
+    propagateSeq (fun z v => npTF v dx lam k z) zs u = npTF u dx lam k zs.sum := by
+  induction zs generalizing u with
+  | nil =>
+    simp only [propagateSeq, List.foldl_nil, List.sum_nil]
+    exact (C02_np_tf_zero_distance_identity u dx lam k hdx hm).symm
+  | cons z zs ih =>
+    have := ih (npTF u dx lam k z)
+    simp only [propagateSeq, List.foldl_cons, List.sum_cons] at this ⊢
+    rw [this, C02_np_tf_composes u dx lam k z zs.sum hdx hm]
 
 end Odak
